@@ -1,12 +1,46 @@
 (* Properties_C19.v — C19 (partial): stop() interrupts any solver promptly, leaving valid results.
-   What is proved: (a) on the GENERATED status chain a pending stop request never yields Busy, (b) for every observation sequence
-   the loop skeleton returns at the first check that sees the request, with Interrupted or a higher-ranked status, and Interrupted
-   is only returned after a request, (c) ALM returns immediately after an Interrupted inner solve without another inner call,
-   (d) the exit block writes the outputs for Interrupted exactly as for Converged (so C03's relations apply).
-   NOT expressible in this model (stated, not claimed): true asynchrony and the absence of a data race on the atomic stop flag;
-   the number of evaluations between the request and the next poll (bounded only empirically by the oracle). *)
+   PROVED NOW
+   (1) on the GENERATED status chain a pending stop request never yields Busy; the loop skeleton returns at the first check that sees
+       the request; ALM returns at once after an Interrupted inner solve; the exit block treats Interrupted like Converged.
+   (2) PROMPTNESS ON THE WHOLE-LOOP MODELS (Panoc.v, ZeroFpr.v, Pantr.v, FistaLoop.v — the models tied to the code by whole-run
+       correspondence), for a STICKY request (sticky stop_req: once visible, visible for all later event counters), for every number
+       system (R and binary64), every problem / direction / clock oracle, every parameter set, counting oracle calls as the models do
+       (eval_ψ_grad_ψ, eval_ψ, eval_grad_L, eval_grad_ψ = 1 each):
+         PANOC    a line-search pass costs <= 2 oracle calls + 1 prox step; a line-search test that sees the request returns
+                  LsStopped with no further work; FROM ANY POLL THAT SEES THE REQUEST the run returns after <= 1 further poll,
+                  <= 2 oracle calls (∇ψ(x̂) for the criterion, eval_ψ of the exit block in eager mode), no direction call, no
+                  iterate update, k unchanged, status Interrupted or a higher-ranked one; between two consecutive polls: <= 3 oracle
+                  calls; FROM THE REQUEST TO THE RETURN (the poll after pp sees it): <= 3 polls, 5 oracle calls, 2 direction calls,
+                  2 callbacks after pp; stop() inside a direction call (k >= 1): no further direction call.
+                  Independent of max_iter, fuel, the direction.
+         ZeroFPR  the same with <= 1 oracle call after the poll (eval_grad_L of the next stop check); request to return <= 4.
+         PANTR    one poll per iteration: a poll that sees the request returns with NO further oracle call; the iteration in
+                  progress completes first: <= 5 oracle calls + the halvings of its unpolled backtrack_qub loops.
+         FISTA    one poll per iteration: <= 1 oracle call after the poll (late eval_ψ in fixed-step mode); the pass in progress
+                  completes first: <= 4 oracle calls + the halvings of its unpolled backtracking loop.
+         start-up a request visible before the solve starts: start-up + ONE stop check, no direction call, no iteration:
+                  <= 5 (PANOC) / 4 (ZeroFPR, PANTR) / 6 (FISTA) oracle calls + the halvings of the unpolled initial step-size loop.
+   (3) VALIDITY: an Interrupted run of each of the four models returns outputs satisfying the exit relations of C03
+       (x = x̂ of a consistent iterate, y = ŷ(x), err_z = (ŷ - y)/Σ).
+   (4) UNDER ALM (AlmCompose/AlmPanoc, cumulative counters): the inner solve in which a poll sees the request returns by (2); if it
+       returns Interrupted, ALM returns Interrupted at once; EVERY later inner solve is start-up + one stop check; the first of them
+       that returns Interrupted is the last.
+   FINDING (model and code agree, C19_alm_one_further_solve_refuted): "at most ONE further inner solve" is false.  ALM never polls the
+       flag; while the later inner solves end at their first check with a status ranked above Interrupted (Converged because the
+       warm start already meets the inner tolerance, NotFinite, MaxIter with max_iter = 0) the outer loop goes on until its own exit
+       test.  Concrete run: min -x, x in [0,1], x <= 1/2, x0 = 1, Σ0 = 0.01: stop() in evaluation #0, four inner solves follow.
+       The proved bound under ALM is therefore per inner solve, times the number of inner solves started after the request.
+   NOT EXPRESSIBLE in these models (stated, not claimed): true asynchrony (the request is a function of the event counters, i.e. it
+   becomes visible between two modelled events, not in the middle of a user function) and the absence of a data race on the
+   atomic stop flag (relaxed load / seq_cst store).
+   ALSO PROVED: PANOC-OCP (module C19_OCP: a line-search pass <= 3 oracle calls; after a poll that sees the request <= 1 further poll and
+   NO oracle call, no Gauss-Newton / L-BFGS call, curr untouched); ALM over ZeroFPR, PANTR, FISTA (C19_alm_*_stop_is_prompt).
+   Validity of Interrupted PANOC-OCP outputs: Properties_PANOCOCP.PANOCOCP_exit holds for every completed run (not repeated here). *)
 From Coq Require Import Reals List ZArith Bool Arith.
-From Alpaqa Require Import Num NumR SolverStatus SolverKernels StopChain StopChainProofs LoopSkeleton SolverKernelsProofs Alm AlmProofs.
+From Alpaqa Require Import Num NumR Vec Prox SolverStatus SolverKernels StopChain StopChainProofs LoopSkeleton SolverKernelsProofs Alm AlmProofs.
+From Alpaqa Require Import Panoc ZeroFpr Pantr FistaLoop AlmCompose AlmComposeProofs AlmPanoc AugLag.
+From Alpaqa Require Import StopPrompt StopPromptGap StopPromptZfpr StopPromptGapZ StopPromptPantr StopPromptFista StopPromptAlm StopPromptValid StopPromptEx.
+From Alpaqa Require PanocProofs ZeroFprProofs PantrProofs FistaLoopProofs.
 Import ListNotations.
 
 Section C19.
@@ -43,8 +77,8 @@ Theorem C19_interrupted_overwrites : forall always, overwrites StInterrupted alw
 Proof. intros; reflexivity. Qed.
 
 (* ALM: an Interrupted inner solve is the last one — no further inner call, status Interrupted *)
-Theorem C19_alm_stops_after_interrupted : forall (P : alm_params) pb f0 g0 nanv Σ0 y0 script,
-  p_max_iter P <> 0%nat -> pb_m pb <> 0%nat ->
+Theorem C19_alm_stops_after_interrupted : forall (P : alm_params (T:=R)) pb f0 g0 nanv Σ0 y0 script,
+  Alm.p_max_iter P <> 0%nat -> pb_m pb <> 0%nat ->
   f_exhausted (snd (alm_run P pb f0 g0 nanv Σ0 y0 script)) = false ->
   exists (pre : list iter_rec) (r : iter_rec), fst (alm_run P pb f0 g0 nanv Σ0 y0 script) = pre ++ [r] /\
     Forall (fun a => ir_status (it_res a) <> Interrupted) pre /\
@@ -57,3 +91,573 @@ Example C19_nonvacuous :
 Proof.
   unfold stop_status_helpers. numR. rbool; try reflexivity; exfalso; Lra.lra.
 Qed.
+
+(* ====================================================================== promptness on the whole-loop models *)
+(* what the predicates say, spelled out *)
+Theorem C19_sticky_means : forall stop_req, sticky stop_req <->
+  (forall c c', (c_polls c <= c_polls c' /\ c_pg c <= c_pg c' /\ c_py c <= c_py c' /\ c_gl c <= c_gl c' /\ c_gpsi c <= c_gpsi c' /\
+                 c_dir c <= c_dir c' /\ c_apply c <= c_apply c' /\ c_cb c <= c_cb c')%nat -> stop_req c = true -> stop_req c' = true).
+Proof. exact (fun _ => conj (fun H => H) (fun H => H)). Qed.
+Theorem C19_adv_means : forall a b p e d ap cb, adv a b p e d ap cb <->
+  (cnt_le a b /\ (c_polls b <= c_polls a + p /\ c_pg b + c_py b + c_gl b + c_gpsi b <= c_pg a + c_py a + c_gl a + c_gpsi a + e /\
+                  c_dir b <= c_dir a + d /\ c_apply b <= c_apply a + ap /\ c_cb b <= c_cb a + cb)%nat).
+Proof. exact (fun _ _ _ _ _ _ _ => conj (fun H => H) (fun H => H)). Qed.
+
+Section C19_PANOC.
+  Context {T : Type} `{Num T}.
+  Variable psi_grad_full : list T -> T * list T * list T.
+  Variable psi_yhat : list T -> T * list T.
+  Variable grad_L : list T -> list T -> list T.
+  Variable grad_psi : list T -> list T.
+  Variables (lb ub : list (option T)) (l1 : list T).
+  Variable dir_apply : nat -> iterate (T:=T) -> option (list T).
+  Variable has_initial : bool.
+  Variable stop_req : counters -> bool.
+  Variable time_up : counters -> bool.
+  Variable P : params (T:=T).
+  Variables (x_in y_in Σ errz_in : list T).
+  Variable ls_fuel : nat.
+  Notation run := (panoc psi_grad_full psi_yhat grad_L grad_psi lb ub l1 dir_apply has_initial stop_req time_up P x_in y_in Σ errz_in ls_fuel).
+  Notation Pass := (Panoc.pass psi_grad_full psi_yhat grad_L grad_psi lb ub l1 dir_apply has_initial stop_req time_up P x_in y_in Σ errz_in ls_fuel).
+  Notation Lsloop := (Panoc.ls_loop psi_grad_full psi_yhat grad_L grad_psi lb ub l1 stop_req P).
+  Notation Lspass := (ls_pass psi_grad_full psi_yhat grad_L grad_psi lb ub l1 P).
+  Notation Polled := (panoc_polled psi_grad_full psi_yhat grad_L grad_psi lb ub l1 dir_apply has_initial stop_req time_up P x_in y_in Σ errz_in ls_fuel).
+
+  (* prompt_after pp o: the run that returned o, seen from the poll pp *)
+  Theorem C19_prompt_after_means : forall (pp : pollpt (T:=T)) (o : outputs (T:=T)), prompt_after P pp o <->
+    (out_status o <> StBusy /\ exit_statuses (out_status o) /\
+     adv (pp_cnt pp) (out_cnt o) 2 2 0 0 1 /\
+     c_dir (out_cnt o) = c_dir (pp_cnt pp) /\ c_apply (out_cnt o) = c_apply (pp_cnt pp) /\
+     out_iterations o = pp_k pp /\ same_point (pp_curr pp) (out_final o) /\
+     (overwrites (out_status o) (o_always P) = true -> out_x o = ixh (pp_curr pp))).
+  Proof. exact (fun _ _ => conj (fun H => H) (fun H => H)). Qed.
+
+  (* (a) one pass of `while (!stop_requested())`: one poll, <= 2 oracle calls (+ one prox step), <= 1 direction call, no callback *)
+  Theorem C19_panoc_linesearch_pass_bound : forall q τi (s : Panoc.ls_state (T:=T)),
+    adv (Panoc.ls_cnt s) (Panoc.ls_cnt (ls_res_state (Lspass q τi s))) 1 2 1 0 0 /\
+    c_polls (Panoc.ls_cnt (ls_res_state (Lspass q τi s))) = S (c_polls (Panoc.ls_cnt s)).
+  Proof. exact (ls_pass_adv psi_grad_full psi_yhat grad_L grad_psi lb ub l1 P). Qed.
+  (* the loop IS: test the flag, run one pass, repeat *)
+  Theorem C19_panoc_linesearch_is_test_then_pass : forall fuel q τi (s : Panoc.ls_state (T:=T)),
+    Lsloop (S fuel) q τi s = if stop_req (Panoc.ls_cnt s) then Panoc.LsStopped (ls_stopped_at s)
+                             else match Lspass q τi s with inl s1 => Lsloop fuel q τi s1 | inr s2 => Panoc.LsDone s2 end.
+  Proof. exact (ls_loop_unfold psi_grad_full psi_yhat grad_L grad_psi lb ub l1 stop_req P). Qed.
+  (* (a) a test that sees the request: LsStopped, the state untouched, nothing evaluated *)
+  Theorem C19_panoc_linesearch_stops_at_next_test : forall fuel q τi (s : Panoc.ls_state (T:=T)), stop_req (Panoc.ls_cnt s) = true ->
+    Lsloop (S fuel) q τi s = Panoc.LsStopped (ls_stopped_at s).
+  Proof. exact (ls_stops_now psi_grad_full psi_yhat grad_L grad_psi lb ub l1 stop_req P). Qed.
+  (* work between polls when nothing is seen: check -> first line-search test: no oracle call; last line-search pass -> top of the
+     next pass: no oracle call; top of a pass -> its check: <= 1 (∇ψ(x̂) for the criterion) *)
+  Theorem C19_panoc_between_polls : forall (s : lstate (T:=T)) q τi (l : Panoc.ls_state (T:=T)),
+    adv (top_cnt P s) (Panoc.ls_cnt (snd (pass_setup grad_L grad_psi dir_apply has_initial P s))) 1 0 2 1 0 /\
+    adv (Panoc.ls_cnt l) (st_cnt (pass_finish grad_L grad_psi lb ub l1 P s q τi l)) 0 0 1 0 1 /\
+    adv (st_cnt s) (top_cnt P s) 0 1 0 0 0.
+  Proof. exact (fun s q τi l => conj (setup_adv grad_L grad_psi dir_apply has_initial P s)
+                                (conj (finish_adv grad_L grad_psi lb ub l1 P s q τi l) (top_adv P s))). Qed.
+  (* (b) the loop-top check that sees the request leaves the loop; Interrupted unless a higher-ranked condition holds *)
+  Theorem C19_panoc_check_exits_at_request : forall s : lstate (T:=T), stop_req (top_cnt P s) = true ->
+    Pass s = Panoc.PExit (pass_exit psi_yhat grad_L grad_psi lb ub l1 P x_in y_in Σ errz_in s
+                              (top_status grad_L grad_psi lb ub l1 stop_req time_up P s)) /\
+    top_status grad_L grad_psi lb ub l1 stop_req time_up P s <> StBusy /\
+    exit_statuses (top_status grad_L grad_psi lb ub l1 stop_req time_up P s) /\
+    (top_status grad_L grad_psi lb ub l1 stop_req time_up P s = StInterrupted <->
+       (nleb (it_eps lb ub l1 P (top_curr grad_L grad_psi P s)) (eff_tol (o_tol P)) = false /\ time_up (top_cnt P s) = false /\
+        st_k s <> Panoc.p_max_iter P /\ nfinite (it_eps lb ub l1 P (top_curr grad_L grad_psi P s)) = true /\
+        (st_np s <= p_max_no_progress P)%nat)).
+  Proof. exact (pass_exit_at_request psi_grad_full psi_yhat grad_L grad_psi lb ub l1 dir_apply has_initial stop_req time_up P x_in y_in Σ errz_in ls_fuel). Qed.
+
+  (* (b)+(c) MAIN *)
+  Theorem C19_panoc_stop_is_prompt : sticky stop_req -> forall fuel o, run fuel = Done o ->
+    forall pp, Polled pp -> stop_req (pp_cnt pp) = true -> prompt_after P pp o.
+  Proof. exact (panoc_stop_prompt psi_grad_full psi_yhat grad_L grad_psi lb ub l1 dir_apply has_initial stop_req time_up P x_in y_in Σ errz_in ls_fuel). Qed.
+  Theorem C19_panoc_stop_before_start : sticky stop_req -> forall fuel o, run fuel = Done o -> stop_req cnt0 = true ->
+    out_status o <> StBusy /\ exit_statuses (out_status o) /\
+    out_iterations o = 0%nat /\ c_polls (out_cnt o) = 1%nat /\ c_dir (out_cnt o) = 0%nat /\ c_apply (out_cnt o) = 0%nat /\
+    c_cb (out_cnt o) = 1%nat /\ (evals (out_cnt o) <= 5 + s_stepsize_bt (out_stats o))%nat.
+  Proof. exact (panoc_stop_before_start psi_grad_full psi_yhat grad_L grad_psi lb ub l1 dir_apply has_initial stop_req time_up P x_in y_in Σ errz_in ls_fuel). Qed.
+  (* FROM THE REQUEST TO THE RETURN.  pp' is the poll following pp in the run; pp need not have seen the request, pp' sees it:
+     everything after pp is <= 3 polls, <= 5 oracle calls, <= 2 direction calls (<= 1 apply), <= 2 callbacks *)
+  Notation Poll_next := (panoc_poll_next psi_grad_full psi_yhat grad_L grad_psi lb ub l1 dir_apply has_initial stop_req time_up P x_in y_in Σ errz_in ls_fuel).
+  Theorem C19_panoc_request_to_return : sticky stop_req -> forall fuel o, run fuel = Done o ->
+    forall pp pp', Poll_next pp pp' -> stop_req (pp_cnt pp') = true ->
+    adv (pp_cnt pp) (out_cnt o) 3 5 2 1 2 /\ prompt_after P pp' o.
+  Proof. exact (panoc_request_to_return psi_grad_full psi_yhat grad_L grad_psi lb ub l1 dir_apply has_initial stop_req time_up P x_in y_in Σ errz_in ls_fuel). Qed.
+  (* consecutive polls of any loop state: one poll, <= 3 oracle calls, <= 2 direction calls, <= 1 callback apart *)
+  Theorem C19_panoc_consecutive_polls : forall (s : lstate (T:=T)) pp pp',
+    poll_next psi_grad_full psi_yhat grad_L grad_psi lb ub l1 dir_apply has_initial stop_req time_up P x_in y_in Σ errz_in ls_fuel s pp pp' ->
+    adv (pp_cnt pp) (pp_cnt pp') 1 3 2 1 1 /\ c_polls (pp_cnt pp') = S (c_polls (pp_cnt pp)).
+  Proof. exact (poll_next_gap psi_grad_full psi_yhat grad_L grad_psi lb ub l1 dir_apply has_initial stop_req time_up P x_in y_in Σ errz_in ls_fuel). Qed.
+  (* stop() issued INSIDE direction call #d at an iteration k >= 1 (visible as soon as c_dir has passed d): no further direction call *)
+  Theorem C19_panoc_stop_inside_direction_call : sticky stop_req -> forall fuel (s : lstate (T:=T)) o d, (forall c, stop_req c = (d <? c_dir c)%nat) ->
+    Panoc.loop psi_grad_full psi_yhat grad_L grad_psi lb ub l1 dir_apply has_initial stop_req time_up P x_in y_in Σ errz_in ls_fuel fuel s = Done o ->
+    forall pp pp', poll_next psi_grad_full psi_yhat grad_L grad_psi lb ub l1 dir_apply has_initial stop_req time_up P x_in y_in Σ errz_in ls_fuel s pp pp' ->
+    stop_req (pp_cnt pp) = false -> stop_req (pp_cnt pp') = true -> pp_k pp <> 0%nat -> c_dir (out_cnt o) = S d.
+  Proof. exact (fun Hs fuel s o d => loop_stop_inside_direction_call psi_grad_full psi_yhat grad_L grad_psi lb ub l1 dir_apply has_initial stop_req time_up P x_in y_in Σ errz_in ls_fuel Hs fuel s o d). Qed.
+End C19_PANOC.
+
+Section C19_ZEROFPR.
+  Context {T : Type} `{Num T}.
+  Variable psi_grad_full : list T -> T * list T * list T.
+  Variable psi_yhat : list T -> T * list T.
+  Variable grad_L : list T -> list T -> list T.
+  Variable grad_psi : list T -> list T.
+  Variables (lb ub : list (option T)) (l1 : list T).
+  Variable dir_apply : nat -> iterate (T:=T) -> proxit (T:=T) -> option (list T).
+  Variable has_initial : bool.
+  Variable stop_req : counters -> bool.
+  Variable time_up : counters -> bool.
+  Variable P : params (T:=T).
+  Variables (x_in y_in Σ errz_in : list T).
+  Variable ls_fuel : nat.
+  Notation run := (zerofpr psi_grad_full psi_yhat grad_L grad_psi lb ub l1 dir_apply has_initial stop_req time_up P x_in y_in Σ errz_in ls_fuel).
+  Notation Polled := (zerofpr_polled psi_grad_full psi_yhat grad_L grad_psi lb ub l1 dir_apply has_initial stop_req time_up P x_in y_in Σ errz_in ls_fuel).
+
+  Theorem C19_zprompt_after_means : forall (pp : pollpt (T:=T)) (o : outputs (T:=T)), zprompt_after P pp o <->
+    (out_status o <> StBusy /\ exit_statuses (out_status o) /\
+     adv (pp_cnt pp) (out_cnt o) 2 1 0 0 1 /\
+     c_dir (out_cnt o) = c_dir (pp_cnt pp) /\ c_apply (out_cnt o) = c_apply (pp_cnt pp) /\
+     out_iterations o = pp_k pp /\ out_final o = pp_curr pp /\
+     (overwrites (out_status o) (o_always P) = true -> out_x o = ixh (pp_curr pp) /\ out_y o = iyh (pp_curr pp))).
+  Proof. exact (fun _ _ => conj (fun H => H) (fun H => H)). Qed.
+  Theorem C19_zerofpr_linesearch_pass_bound : forall curr prox q τi (s : ZeroFpr.ls_state (T:=T)),
+    adv (ZeroFpr.ls_cnt s) (ZeroFpr.ls_cnt (zls_res_state (zls_pass psi_grad_full psi_yhat lb ub l1 P curr prox q τi s))) 1 2 1 0 0 /\
+    c_polls (ZeroFpr.ls_cnt (zls_res_state (zls_pass psi_grad_full psi_yhat lb ub l1 P curr prox q τi s))) = S (c_polls (ZeroFpr.ls_cnt s)).
+  Proof. exact (zls_pass_adv psi_grad_full psi_yhat lb ub l1 P). Qed.
+  Theorem C19_zerofpr_linesearch_stops_at_next_test : forall fuel curr prox q τi (s : ZeroFpr.ls_state (T:=T)),
+    stop_req (ZeroFpr.ls_cnt s) = true ->
+    ZeroFpr.ls_loop psi_grad_full psi_yhat lb ub l1 stop_req P (S fuel) curr prox q τi s = ZeroFpr.LsStopped (zls_stopped_at s).
+  Proof. exact (zls_stops_now psi_grad_full psi_yhat lb ub l1 stop_req P). Qed.
+  Theorem C19_zerofpr_stop_is_prompt : sticky stop_req -> forall fuel o, run fuel = Done o ->
+    forall pp, Polled pp -> stop_req (pp_cnt pp) = true -> zprompt_after P pp o.
+  Proof. exact (zerofpr_stop_prompt psi_grad_full psi_yhat grad_L grad_psi lb ub l1 dir_apply has_initial stop_req time_up P x_in y_in Σ errz_in ls_fuel). Qed.
+  Theorem C19_zerofpr_stop_before_start : sticky stop_req -> forall fuel o, run fuel = Done o -> stop_req cnt0 = true ->
+    out_status o <> StBusy /\ exit_statuses (out_status o) /\
+    out_iterations o = 0%nat /\ c_polls (out_cnt o) = 1%nat /\ c_dir (out_cnt o) = 0%nat /\ c_apply (out_cnt o) = 0%nat /\
+    c_cb (out_cnt o) = 1%nat /\ (evals (out_cnt o) <= 4 + s_stepsize_bt (out_stats o))%nat.
+  Proof. exact (zerofpr_stop_before_start psi_grad_full psi_yhat grad_L grad_psi lb ub l1 dir_apply has_initial stop_req time_up P x_in y_in Σ errz_in ls_fuel). Qed.
+  Notation Poll_next := (zerofpr_poll_next psi_grad_full psi_yhat grad_L grad_psi lb ub l1 dir_apply has_initial stop_req time_up P x_in y_in Σ errz_in ls_fuel).
+  Theorem C19_zerofpr_request_to_return : sticky stop_req -> forall fuel o, run fuel = Done o ->
+    forall pp pp', Poll_next pp pp' -> stop_req (pp_cnt pp') = true ->
+    adv (pp_cnt pp) (out_cnt o) 3 4 2 1 2 /\ zprompt_after P pp' o.
+  Proof. exact (zerofpr_request_to_return psi_grad_full psi_yhat grad_L grad_psi lb ub l1 dir_apply has_initial stop_req time_up P x_in y_in Σ errz_in ls_fuel). Qed.
+  Theorem C19_zerofpr_stop_inside_direction_call : sticky stop_req -> forall fuel (s : lstate (T:=T)) o d, (forall c, stop_req c = (d <? c_dir c)%nat) ->
+    ZeroFpr.loop psi_grad_full psi_yhat grad_L lb ub l1 dir_apply has_initial stop_req time_up P x_in y_in Σ errz_in ls_fuel fuel s = Done o ->
+    forall pp pp', zpoll_next psi_grad_full psi_yhat grad_L lb ub l1 dir_apply has_initial stop_req time_up P x_in y_in Σ errz_in ls_fuel s pp pp' ->
+    stop_req (pp_cnt pp) = false -> stop_req (pp_cnt pp') = true -> pp_k pp <> 0%nat -> c_dir (out_cnt o) = S d.
+  Proof. exact (fun Hs fuel s o d => zloop_stop_inside_direction_call psi_grad_full psi_yhat grad_L lb ub l1 dir_apply has_initial stop_req time_up P x_in y_in Σ errz_in ls_fuel Hs fuel s o d). Qed.
+End C19_ZEROFPR.
+
+Section C19_PANTR.
+  Context {T : Type} `{Num T}.
+  Variable psi_grad_full : list T -> T * list T * list T.
+  Variable psi_yhat : list T -> T * list T.
+  Variable grad_L : list T -> list T -> list T.
+  Variable grad_psi : list T -> list T.
+  Variables (lb ub : list (option T)) (l1 : list T).
+  Variable tr_apply : nat -> iterate (T:=T) -> T -> list T * T.
+  Variable has_initial : bool.
+  Variable stop_req : counters -> bool.
+  Variable time_up : counters -> bool.
+  Variable TP : trparams (T:=T).
+  Variables (x_in y_in Σ errz_in : list T).
+  Variable bt_fuel : nat.
+  Notation run := (pantr psi_grad_full psi_yhat grad_L grad_psi lb ub l1 tr_apply has_initial stop_req time_up TP x_in y_in Σ errz_in bt_fuel).
+  Notation Polled := (pantr_polled psi_grad_full psi_yhat grad_L grad_psi lb ub l1 tr_apply has_initial stop_req time_up TP x_in y_in Σ errz_in bt_fuel).
+
+  Theorem C19_tprompt_after_means : forall (pp : pollpt (T:=T)) (o : toutputs (T:=T)), tprompt_after TP pp o <->
+    (to_status o <> StBusy /\ exit_statuses (to_status o) /\ to_cnt o = inc_cb (inc_polls (pp_cnt pp)) /\
+     to_iterations o = pp_k pp /\ to_final o = pp_curr pp /\
+     (overwrites (to_status o) (o_always (tp_base TP)) = true -> to_x o = ixh (pp_curr pp) /\ to_y o = iyh (pp_curr pp))).
+  Proof. exact (fun _ _ => conj (fun H => H) (fun H => H)). Qed.
+  (* no stickiness needed: PANTR has one poll per iteration and the poll that sees the request returns *)
+  Theorem C19_pantr_stop_is_prompt : forall fuel o, run fuel = TDone o ->
+    forall pp, Polled pp -> stop_req (pp_cnt pp) = true -> tprompt_after TP pp o.
+  Proof. exact (pantr_stop_prompt psi_grad_full psi_yhat grad_L grad_psi lb ub l1 tr_apply has_initial stop_req time_up TP x_in y_in Σ errz_in bt_fuel). Qed.
+  (* the iteration in progress completes: its cost *)
+  Theorem C19_pantr_iteration_in_progress_bound : forall s s' : tstate (T:=T),
+    tpass psi_grad_full psi_yhat grad_L lb ub l1 tr_apply has_initial stop_req time_up TP x_in y_in Σ errz_in bt_fuel s = TCont s' ->
+    cnt_le (ts_cnt s) (ts_cnt s') /\ c_polls (ts_cnt s') = S (c_polls (ts_cnt s)) /\
+    (evals (ts_cnt s') + s_stepsize_bt (ts_stats s) <= evals (ts_cnt s) + s_stepsize_bt (ts_stats s') + 5)%nat /\
+    (c_dir (ts_cnt s') <= c_dir (ts_cnt s) + 3)%nat /\ (c_apply (ts_cnt s') <= c_apply (ts_cnt s) + 1)%nat /\
+    c_cb (ts_cnt s') = S (c_cb (ts_cnt s)).
+  Proof. exact (tpass_cont_adv psi_grad_full psi_yhat grad_L lb ub l1 tr_apply has_initial stop_req time_up TP x_in y_in Σ errz_in bt_fuel). Qed.
+  Theorem C19_pantr_stop_before_start : sticky stop_req -> forall fuel o, run fuel = TDone o -> stop_req cnt0 = true ->
+    to_status o <> StBusy /\ exit_statuses (to_status o) /\
+    to_iterations o = 0%nat /\ c_polls (to_cnt o) = 1%nat /\ c_dir (to_cnt o) = 0%nat /\ c_apply (to_cnt o) = 0%nat /\
+    c_cb (to_cnt o) = 1%nat /\ (evals (to_cnt o) <= 4 + s_stepsize_bt (to_stats o))%nat.
+  Proof. exact (pantr_stop_before_start psi_grad_full psi_yhat grad_L grad_psi lb ub l1 tr_apply has_initial stop_req time_up TP x_in y_in Σ errz_in bt_fuel). Qed.
+End C19_PANTR.
+
+Section C19_FISTA.
+  Context {T : Type} `{Num T}.
+  Variable psi_grad : fcounters -> list T -> T * list T.
+  Variable psi_yhat : fcounters -> list T -> T * list T.
+  Variable grad_L : fcounters -> list T -> list T -> list T.
+  Variable grad_psi : fcounters -> list T -> list T.
+  Variables (lb ub : list (option T)) (l1 : list T).
+  Variable stop_req : fcounters -> bool.
+  Variable time_up : fcounters -> bool.
+  Variable P : fparams (T:=T).
+  Variables (x_in y_in Σ errz_in : list T).
+  Variable bt_fuel : nat.
+  Notation run := (fista psi_grad psi_yhat grad_L grad_psi lb ub l1 stop_req time_up P x_in y_in Σ errz_in bt_fuel).
+  Notation Polled := (fista_polled psi_grad psi_yhat grad_L grad_psi lb ub l1 stop_req time_up P x_in y_in Σ errz_in bt_fuel).
+
+  Theorem C19_fprompt_after_means : forall (pp : fpollpt (T:=T)) (o : foutputs (T:=T)), fprompt_after P pp o <->
+    (fo_status o <> StBusy /\ exit_statuses (fo_status o) /\
+     fcnt_le (fpp_cnt pp) (fo_cnt o) /\ fc_polls (fo_cnt o) = S (fc_polls (fpp_cnt pp)) /\
+     (fevals (fo_cnt o) <= fevals (fpp_cnt pp) + 1)%nat /\ fc_cb (fo_cnt o) = S (fc_cb (fpp_cnt pp)) /\
+     fo_iterations o = fpp_k pp /\ fsame_point (fpp_curr pp) (fo_final o) /\
+     (overwrites (fo_status o) (fp_always P) = true -> fo_x o = jxh (fpp_curr pp))).
+  Proof. exact (fun _ _ => conj (fun H => H) (fun H => H)). Qed.
+  Theorem C19_fista_stop_is_prompt : forall fuel o, run fuel = FDone o ->
+    forall pp, Polled pp -> stop_req (fpp_cnt pp) = true -> fprompt_after P pp o.
+  Proof. exact (fista_stop_prompt psi_grad psi_yhat grad_L grad_psi lb ub l1 stop_req time_up P x_in y_in Σ errz_in bt_fuel). Qed.
+  (* the backtracking loop has no stop poll: the pass in progress completes; its cost *)
+  Theorem C19_fista_pass_in_progress_bound : forall s s' : fstate (T:=T),
+    fpass psi_grad psi_yhat grad_L grad_psi lb ub l1 stop_req time_up P x_in y_in Σ errz_in bt_fuel s = FCont s' ->
+    fcnt_le (fs_cnt s) (fs_cnt s') /\ fc_polls (fs_cnt s') = S (fc_polls (fs_cnt s)) /\ fc_cb (fs_cnt s') = S (fc_cb (fs_cnt s)) /\
+    (fevals (fs_cnt s') + fs_bt s <= fevals (fs_cnt s) + fs_bt s' + 4)%nat /\ fs_k s' = S (fs_k s).
+  Proof. exact (fpass_cont_adv psi_grad psi_yhat grad_L grad_psi lb ub l1 stop_req time_up P x_in y_in Σ errz_in bt_fuel). Qed.
+  Theorem C19_fista_stop_before_start : fsticky stop_req -> forall fuel o, run fuel = FDone o -> stop_req fcnt0 = true ->
+    fo_status o <> StBusy /\ exit_statuses (fo_status o) /\ fo_iterations o = 0%nat /\
+    fc_polls (fo_cnt o) = 1%nat /\ fc_cb (fo_cnt o) = 1%nat /\ (fevals (fo_cnt o) <= 6 + fo_bt o)%nat.
+  Proof. exact (fista_stop_before_start psi_grad psi_yhat grad_L grad_psi lb ub l1 stop_req time_up P x_in y_in Σ errz_in bt_fuel). Qed.
+End C19_FISTA.
+
+Print Assumptions C19_panoc_linesearch_pass_bound.
+Print Assumptions C19_panoc_linesearch_stops_at_next_test.
+Print Assumptions C19_panoc_check_exits_at_request.
+Print Assumptions C19_panoc_stop_is_prompt.
+Print Assumptions C19_panoc_stop_before_start.
+Print Assumptions C19_panoc_request_to_return.
+Print Assumptions C19_panoc_stop_inside_direction_call.
+Print Assumptions C19_zerofpr_request_to_return.
+Print Assumptions C19_zerofpr_stop_inside_direction_call.
+Print Assumptions C19_zerofpr_stop_is_prompt.
+Print Assumptions C19_zerofpr_stop_before_start.
+Print Assumptions C19_pantr_stop_is_prompt.
+Print Assumptions C19_pantr_iteration_in_progress_bound.
+Print Assumptions C19_pantr_stop_before_start.
+Print Assumptions C19_fista_stop_is_prompt.
+Print Assumptions C19_fista_pass_in_progress_bound.
+Print Assumptions C19_fista_stop_before_start.
+
+(* ====================================================================== validity of Interrupted outputs (over R) *)
+Section C19_VALID.
+  Local Open Scope R_scope.
+  Variable psi_grad_full : list R -> R * list R * list R.
+  Variable psi_yhat : list R -> R * list R.
+  Variable grad_L : list R -> list R -> list R.
+  Variable grad_psi : list R -> list R.
+  Variables (lb ub : list (option R)) (l1 : list R).
+  Variable has_initial : bool.
+  Variable stop_req : counters -> bool.
+  Variable time_up : counters -> bool.
+  Variables (x_in y_in Σ errz_in : list R).
+  Variable ls_fuel : nat.
+
+  Theorem C19_panoc_interrupted_outputs_valid : forall (dir_apply : nat -> iterate (T:=R) -> option (list R)) (P : params (T:=R)) fuel o,
+    panoc psi_grad_full psi_yhat grad_L grad_psi lb ub l1 dir_apply has_initial stop_req time_up P x_in y_in Σ errz_in ls_fuel fuel = Done o ->
+    out_status o = StInterrupted ->
+    exists cf : iterate (T:=R),
+      PanocProofs.consistent psi_grad_full psi_yhat grad_L grad_psi lb ub l1 P cf /\ PanocProofs.qub_ok P cf /\
+      PanocProofs.glrel0 psi_grad_full grad_psi P x_in cf /\ out_eps o = it_eps lb ub l1 P cf /\
+      out_x o = ixh cf /\ ixh cf = vadd (ix cf) (ip cf) /\ out_y o = snd (psi_yhat (out_x o)) /\
+      out_errz o = match errz_in with [] => [] | _ => vdiv (vsub (out_y o) y_in) Σ end.
+  Proof. exact (fun d P => panoc_interrupted_valid psi_grad_full psi_yhat grad_L grad_psi lb ub l1 d has_initial stop_req time_up P x_in y_in Σ errz_in ls_fuel). Qed.
+
+  Theorem C19_zerofpr_interrupted_outputs_valid : forall (dir_apply : nat -> iterate (T:=R) -> proxit (T:=R) -> option (list R)) (P : params (T:=R)) fuel o,
+    zerofpr psi_grad_full psi_yhat grad_L grad_psi lb ub l1 dir_apply has_initial stop_req time_up P x_in y_in Σ errz_in ls_fuel fuel = Done o ->
+    out_status o = StInterrupted ->
+    exists cf : iterate (T:=R),
+      ZeroFprProofs.zconsistent psi_grad_full psi_yhat grad_L lb ub l1 cf /\ PanocProofs.qub_ok P cf /\
+      PanocProofs.glrel0 psi_grad_full grad_psi P x_in cf /\
+      out_x o = ixh cf /\ ixh cf = vadd (ix cf) (ip cf) /\ out_y o = iyh cf /\ iyh cf = snd (psi_yhat (out_x o)) /\
+      out_errz o = match errz_in with [] => [] | _ => vdiv (vsub (out_y o) y_in) Σ end.
+  Proof. exact (fun d P => zerofpr_interrupted_valid psi_grad_full psi_yhat grad_L grad_psi lb ub l1 d has_initial stop_req time_up P x_in y_in Σ errz_in ls_fuel). Qed.
+
+  Theorem C19_pantr_interrupted_outputs_valid : forall (tr_apply : nat -> iterate (T:=R) -> R -> list R * R) (TP : trparams (T:=R)) fuel o,
+    pantr psi_grad_full psi_yhat grad_L grad_psi lb ub l1 tr_apply has_initial stop_req time_up TP x_in y_in Σ errz_in ls_fuel fuel = TDone o ->
+    to_status o = StInterrupted ->
+    exists cf : iterate (T:=R),
+      PantrProofs.tconsistent psi_grad_full psi_yhat grad_L lb ub l1 cf /\ PanocProofs.qub_ok (tp_base TP) cf /\
+      PanocProofs.glrel0 psi_grad_full grad_psi (tp_base TP) x_in cf /\
+      to_x o = ixh cf /\ ixh cf = vadd (ix cf) (ip cf) /\ to_y o = iyh cf /\ iyh cf = snd (psi_yhat (to_x o)) /\
+      to_errz o = match errz_in with [] => [] | _ => vdiv (vsub (to_y o) y_in) Σ end.
+  Proof. exact (fun d TP => pantr_interrupted_valid psi_grad_full psi_yhat grad_L grad_psi lb ub l1 d has_initial stop_req time_up TP x_in y_in Σ errz_in ls_fuel). Qed.
+End C19_VALID.
+Theorem C19_fista_interrupted_outputs_valid : forall psi_grad psi_yhat grad_L grad_psi lb ub l1 stop_req time_up (P : fparams (T:=R))
+    x_in y_in Σ errz_in bt_fuel fuel o,
+  fista psi_grad psi_yhat grad_L grad_psi lb ub l1 stop_req time_up P x_in y_in Σ errz_in bt_fuel fuel = FDone o ->
+  fo_status o = StInterrupted ->
+  exists cf : fiter (T:=R),
+    FistaLoopProofs.checked psi_grad psi_yhat grad_L grad_psi lb ub l1 P cf /\ FistaLoopProofs.qub_ok P cf /\
+    fo_x o = jxh cf /\ jxh cf = vadd (jx cf) (jp cf) /\ fo_y o = jyh (fo_final o) /\
+    (exists c, (jpsih (fo_final o), fo_y o) = psi_yhat c (fo_x o)) /\
+    fo_errz o = match errz_in with [] => [] | _ => vdiv (vsub (fo_y o) y_in) Σ end.
+Proof. exact fista_interrupted_valid. Qed.
+Print Assumptions C19_panoc_interrupted_outputs_valid.
+Print Assumptions C19_zerofpr_interrupted_outputs_valid.
+Print Assumptions C19_pantr_interrupted_outputs_valid.
+Print Assumptions C19_fista_interrupted_outputs_valid.
+
+(* the start-up bound as an explicit constant of the parameters (over R): the unpolled initial step-size loop makes at most nL passes
+   when L_init > 0 and L_max <= L_init 2^nL, so a PANOC solve started with the request visible costs at most 5 + nL oracle calls *)
+From Alpaqa Require Import StopPromptNbt.
+Theorem C19_panoc_stop_before_start_explicit : forall psi_grad_full psi_yhat grad_L grad_psi lb ub l1 dir_apply has_initial stop_req time_up
+    (P : params (T:=R)) x_in y_in Σ errz_in ls_fuel, sticky stop_req -> forall (nL fuel : nat) o,
+  panoc psi_grad_full psi_yhat grad_L grad_psi lb ub l1 dir_apply has_initial stop_req time_up P x_in y_in Σ errz_in ls_fuel fuel = Done o ->
+  stop_req cnt0 = true -> (0 < Linit psi_grad_full grad_psi P x_in)%R -> (p_Lmax P <= Linit psi_grad_full grad_psi P x_in * 2 ^ nL)%R ->
+  (evals (out_cnt o) <= 5 + nL)%nat /\ out_iterations o = 0%nat /\ c_polls (out_cnt o) = 1%nat /\ c_dir (out_cnt o) = 0%nat /\
+  out_status o <> StBusy.
+Proof. exact panoc_stop_before_start_explicit. Qed.
+Print Assumptions C19_panoc_stop_before_start_explicit.
+
+(* ====================================================================== under ALM (ALMSolver<PANOCSolver>, composed model; over R) *)
+Section C19_ALM.
+  Variable Pb : problem (T:=R).
+  Variable prov : fn -> bool.
+  Variable wm_supplied : list R -> list R.
+  Variables (Clb Cub : list (option R)) (l1 : list R).
+  Variable split : nat.
+  Variable dir : nat -> iterate (T:=R) -> option (list R).
+  Variable has_initial : bool.
+  Variable stop_req : counters -> bool.
+  Variable time_up : counters -> bool.
+  Variable outer_oot : nat -> bool.
+  Variable PP : params (T:=R).
+  Variable AP : alm_params (T:=R).
+  Variables (ls_fuel inner_fuel : nat).
+  Notation Inner := (inner Pb prov wm_supplied Clb Cub l1 dir has_initial stop_req time_up outer_oot PP ls_fuel inner_fuel).
+  Notation Almp := (alm_panoc Pb prov wm_supplied Clb Cub l1 split dir has_initial stop_req time_up outer_oot PP AP ls_fuel inner_fuel).
+  Notation Called := (called counters (result (T:=R)) Inner).
+  Notation Called1 := (called1 Pb prov wm_supplied Clb Cub l1 dir has_initial stop_req time_up outer_oot PP ls_fuel inner_fuel).
+  Notation Inner_polled := (inner_polled Pb prov wm_supplied Clb Cub l1 dir has_initial stop_req time_up PP ls_fuel).
+
+  (* an inner solve that is start-up + ONE stop check *)
+  Theorem C19_one_check_means : forall (lg : result (T:=R)) (r : inner_res (T:=R)), one_check lg r <->
+    match lg with
+    | Done o => out_iterations o = 0%nat /\ c_polls (out_cnt o) = 1%nat /\ c_dir (out_cnt o) = 0%nat /\ c_apply (out_cnt o) = 0%nat /\
+                c_cb (out_cnt o) = 1%nat /\ (evals (out_cnt o) <= 5 + s_stepsize_bt (out_stats o))%nat /\
+                exit_statuses (out_status o) /\ ir_status r = alm_status_of (out_status o) /\ ir_iters r = 0%nat
+    | NotFiniteL _ => ir_status r = NotFinite /\ ir_iters r = 0%nat
+    | OutOfFuel => False
+    end.
+  Proof. exact (fun _ _ => conj (fun H => H) (fun H => H)). Qed.
+
+  (* an inner solve started with the request visible is a one-check solve, and hands the request on *)
+  Theorem C19_alm_inner_started_after_request : sticky stop_req -> forall w i x y Σ tol e r x' lg w', stop_req w = true ->
+    Inner w i x y Σ tol e = Some (r, x', lg, w') -> one_check lg r /\ stop_req w' = true.
+  Proof. exact (inner_after_request Pb prov wm_supplied Clb Cub l1 dir has_initial stop_req time_up outer_oot PP ls_fuel inner_fuel). Qed.
+
+  (* MAIN.  rc: the outer iteration in whose inner solve some poll pp sees the request; post: the outer iterations after it *)
+  Theorem C19_alm_panoc_stop_is_prompt : sticky stop_req -> forall outer_fuel nanv Σ0 y0 x0 co, Almp outer_fuel nanv Σ0 y0 x0 = Some co ->
+    forall pre rc post, co_trace co = pre ++ rc :: post ->
+    exists (x : list R) (w : counters) (x' : list R) (lg : result (T:=R)) (w' : counters),
+      Called x0 cnt0 pre x w /\
+      Inner w (it_i rc) x (it_y rc) (it_Sigma rc) (it_tol rc) (it_err_in rc) = Some (it_res rc, x', lg, w') /\
+      forall pp, Inner_polled w x (it_y rc) (it_Sigma rc) (it_tol rc) (it_err_in rc) pp -> stop_req (cadd w (pp_cnt pp)) = true ->
+        (exists o, lg = Done o /\ prompt_after (with_opts PP (it_tol rc)) pp o) /\
+        (ir_status (it_res rc) = Interrupted -> post = [] /\ f_status (co_final co) = Interrupted) /\
+        Called1 w' post /\
+        (forall post1 rc' post2, post = post1 ++ rc' :: post2 -> ir_status (it_res rc') = Interrupted ->
+           post2 = [] /\ f_status (co_final co) = Interrupted).
+  Proof. exact (alm_panoc_stop_prompt Pb prov wm_supplied Clb Cub l1 split dir has_initial stop_req time_up outer_oot PP AP ls_fuel inner_fuel). Qed.
+
+  (* at most ONE further inner solve — under the hypothesis that it returns Interrupted (no higher-ranked condition at its first check) *)
+  Theorem C19_alm_one_further_solve_if_interrupted : forall outer_fuel nanv Σ0 y0 x0 co, Almp outer_fuel nanv Σ0 y0 x0 = Some co ->
+    forall pre rc rc' post2, co_trace co = pre ++ rc :: rc' :: post2 -> ir_status (it_res rc') = Interrupted ->
+    post2 = [] /\ f_status (co_final co) = Interrupted.
+  Proof. exact (alm_one_more_if_interrupted Pb prov wm_supplied Clb Cub l1 split dir has_initial stop_req time_up outer_oot PP AP ls_fuel inner_fuel). Qed.
+End C19_ALM.
+Print Assumptions C19_alm_inner_started_after_request.
+Print Assumptions C19_alm_panoc_stop_is_prompt.
+Print Assumptions C19_alm_one_further_solve_if_interrupted.
+
+(* ====================================================================== under ALM: ZeroFPR, PANTR, FISTA as inner solvers (over R) *)
+From Alpaqa Require Import AlmZeroFpr AlmPantr AlmFista StopPromptAlmG.
+Section C19_ALM_OTHERS.
+  Variable Pb : problem (T:=R).
+  Variable prov : fn -> bool.
+  Variable wm_supplied : list R -> list R.
+  Variables (Clb Cub : list (option R)) (l1 : list R).
+  Variable split : nat.
+  Variable has_initial : bool.
+  Variable outer_oot : nat -> bool.
+  Variable AP : alm_params (T:=R).
+  Variables (ls_fuel inner_fuel : nat).
+
+  (* rc: any outer iteration of the run; if a poll pp of ITS inner solve sees the request, that solve is prompt (as stand-alone) and
+     every later inner solve (post) is start-up + one stop check (gcalled1 … zone_check); Interrupted is propagated at once *)
+  Theorem C19_alm_zerofpr_stop_is_prompt : forall (dir : nat -> iterate (T:=R) -> proxit (T:=R) -> option (list R)) stop_req time_up (PP : params (T:=R)),
+    sticky stop_req -> forall outer_fuel nanv Σ0 y0 x0 co,
+    alm_zerofpr Pb prov wm_supplied Clb Cub l1 split dir has_initial stop_req time_up outer_oot PP AP ls_fuel inner_fuel outer_fuel nanv Σ0 y0 x0 = Some co ->
+    forall pre rc post, co_trace co = pre ++ rc :: post ->
+    exists (x : list R) (w : counters) (x' : list R) (lg : result (T:=R)) (w' : counters),
+      called counters (result (T:=R)) (zinner Pb prov wm_supplied Clb Cub l1 dir has_initial stop_req time_up outer_oot PP ls_fuel inner_fuel) x0 cnt0 pre x w /\
+      zinner Pb prov wm_supplied Clb Cub l1 dir has_initial stop_req time_up outer_oot PP ls_fuel inner_fuel
+             w (it_i rc) x (it_y rc) (it_Sigma rc) (it_tol rc) (it_err_in rc) = Some (it_res rc, x', lg, w') /\
+      (ir_status (it_res rc) = Interrupted -> post = [] /\ f_status (co_final co) = Interrupted) /\
+      (forall post1 rc' post2, post = post1 ++ rc' :: post2 -> ir_status (it_res rc') = Interrupted ->
+         post2 = [] /\ f_status (co_final co) = Interrupted) /\
+      forall pp o, lg = Done o ->
+        zinner_polled Pb prov wm_supplied Clb Cub l1 dir has_initial stop_req time_up PP ls_fuel w x (it_y rc) (it_Sigma rc) (it_tol rc) (it_err_in rc) pp ->
+        stop_req (cadd w (pp_cnt pp)) = true ->
+        zprompt_after (with_opts PP (it_tol rc)) pp o /\
+        gcalled1 counters (result (T:=R)) (zinner Pb prov wm_supplied Clb Cub l1 dir has_initial stop_req time_up outer_oot PP ls_fuel inner_fuel)
+                 zone_check w' post.
+  Proof. exact (fun dir stop_req time_up PP => alm_zerofpr_stop_prompt Pb prov wm_supplied Clb Cub l1 split dir has_initial stop_req time_up outer_oot PP AP ls_fuel inner_fuel). Qed.
+
+  Theorem C19_alm_pantr_stop_is_prompt : forall (tr_dir : nat -> iterate (T:=R) -> R -> list R * R) stop_req time_up (TP : trparams (T:=R)),
+    sticky stop_req -> forall outer_fuel nanv Σ0 y0 x0 co,
+    alm_pantr Pb prov wm_supplied Clb Cub l1 split tr_dir has_initial stop_req time_up outer_oot TP AP ls_fuel inner_fuel outer_fuel nanv Σ0 y0 x0 = Some co ->
+    forall pre rc post, co_trace co = pre ++ rc :: post ->
+    exists (x : list R) (w : counters) (x' : list R) (lg : tresult (T:=R)) (w' : counters),
+      called counters (tresult (T:=R)) (tinner Pb prov wm_supplied Clb Cub l1 tr_dir has_initial stop_req time_up outer_oot TP ls_fuel inner_fuel) x0 cnt0 pre x w /\
+      tinner Pb prov wm_supplied Clb Cub l1 tr_dir has_initial stop_req time_up outer_oot TP ls_fuel inner_fuel
+             w (it_i rc) x (it_y rc) (it_Sigma rc) (it_tol rc) (it_err_in rc) = Some (it_res rc, x', lg, w') /\
+      (ir_status (it_res rc) = Interrupted -> post = [] /\ f_status (co_final co) = Interrupted) /\
+      (forall post1 rc' post2, post = post1 ++ rc' :: post2 -> ir_status (it_res rc') = Interrupted ->
+         post2 = [] /\ f_status (co_final co) = Interrupted) /\
+      forall pp o, lg = TDone o ->
+        tinner_polled Pb prov wm_supplied Clb Cub l1 tr_dir has_initial stop_req time_up TP ls_fuel w x (it_y rc) (it_Sigma rc) (it_tol rc) (it_err_in rc) pp ->
+        stop_req (cadd w (pp_cnt pp)) = true ->
+        tprompt_after (tr_with_opts TP (it_tol rc)) pp o /\
+        gcalled1 counters (tresult (T:=R)) (tinner Pb prov wm_supplied Clb Cub l1 tr_dir has_initial stop_req time_up outer_oot TP ls_fuel inner_fuel)
+                 tone_check w' post.
+  Proof. exact (fun tr_dir stop_req time_up TP => alm_pantr_stop_prompt Pb prov wm_supplied Clb Cub l1 split tr_dir has_initial stop_req time_up outer_oot TP AP ls_fuel inner_fuel). Qed.
+
+  Theorem C19_alm_fista_stop_is_prompt : forall stop_req time_up (FP : fparams (T:=R)),
+    fsticky stop_req -> forall outer_fuel nanv Σ0 y0 x0 co,
+    alm_fista Pb prov Clb Cub l1 split stop_req time_up outer_oot FP AP ls_fuel inner_fuel outer_fuel nanv Σ0 y0 x0 = Some co ->
+    forall pre rc post, co_trace co = pre ++ rc :: post ->
+    exists (x : list R) (w : fcounters) (x' : list R) (lg : fresult (T:=R)) (w' : fcounters),
+      called fcounters (fresult (T:=R)) (finner Pb prov Clb Cub l1 stop_req time_up outer_oot FP ls_fuel inner_fuel) x0 fcnt0 pre x w /\
+      finner Pb prov Clb Cub l1 stop_req time_up outer_oot FP ls_fuel inner_fuel
+             w (it_i rc) x (it_y rc) (it_Sigma rc) (it_tol rc) (it_err_in rc) = Some (it_res rc, x', lg, w') /\
+      (ir_status (it_res rc) = Interrupted -> post = [] /\ f_status (co_final co) = Interrupted) /\
+      (forall post1 rc' post2, post = post1 ++ rc' :: post2 -> ir_status (it_res rc') = Interrupted ->
+         post2 = [] /\ f_status (co_final co) = Interrupted) /\
+      forall pp o, lg = FDone o ->
+        finner_polled Pb prov Clb Cub l1 stop_req time_up FP ls_fuel w x (it_y rc) (it_Sigma rc) (it_tol rc) (it_err_in rc) pp ->
+        stop_req (fcadd w (fpp_cnt pp)) = true ->
+        fprompt_after (fwith_opts FP (it_tol rc)) pp o /\
+        gcalled1 fcounters (fresult (T:=R)) (finner Pb prov Clb Cub l1 stop_req time_up outer_oot FP ls_fuel inner_fuel) fone_check w' post.
+  Proof. exact (fun stop_req time_up FP => alm_fista_stop_prompt Pb prov Clb Cub l1 split stop_req time_up outer_oot FP AP ls_fuel inner_fuel). Qed.
+
+  (* what a one-check solve is, for the three solvers *)
+  Theorem C19_one_check_means_others :
+    (forall (lg : result (T:=R)) (r : inner_res (T:=R)), zone_check lg r <->
+       match lg with
+       | Done o => out_iterations o = 0%nat /\ c_polls (out_cnt o) = 1%nat /\ c_dir (out_cnt o) = 0%nat /\ c_apply (out_cnt o) = 0%nat /\
+                   c_cb (out_cnt o) = 1%nat /\ (evals (out_cnt o) <= 4 + s_stepsize_bt (out_stats o))%nat /\
+                   exit_statuses (out_status o) /\ ir_status r = alm_status_of (out_status o) /\ ir_iters r = 0%nat
+       | NotFiniteL _ => ir_status r = NotFinite /\ ir_iters r = 0%nat
+       | OutOfFuel => False
+       end) /\
+    (forall (lg : tresult (T:=R)) (r : inner_res (T:=R)), tone_check lg r <->
+       match lg with
+       | TDone o => to_iterations o = 0%nat /\ c_polls (to_cnt o) = 1%nat /\ c_dir (to_cnt o) = 0%nat /\ c_apply (to_cnt o) = 0%nat /\
+                    c_cb (to_cnt o) = 1%nat /\ (evals (to_cnt o) <= 4 + s_stepsize_bt (to_stats o))%nat /\
+                    exit_statuses (to_status o) /\ ir_status r = alm_status_of (to_status o) /\ ir_iters r = 0%nat
+       | TNotFiniteL _ => ir_status r = NotFinite /\ ir_iters r = 0%nat
+       | TOutOfFuel => False
+       end) /\
+    (forall (lg : fresult (T:=R)) (r : inner_res (T:=R)), fone_check lg r <->
+       match lg with
+       | FDone o => fo_iterations o = 0%nat /\ fc_polls (fo_cnt o) = 1%nat /\ fc_cb (fo_cnt o) = 1%nat /\
+                    (fevals (fo_cnt o) <= 6 + fo_bt o)%nat /\ exit_statuses (fo_status o) /\
+                    ir_status r = alm_status_of (fo_status o) /\ ir_iters r = 0%nat
+       | FNotFiniteL _ => ir_status r = NotFinite /\ ir_iters r = 0%nat
+       | FOutOfFuel => False
+       end).
+  Proof. exact (conj (fun _ _ => conj (fun H => H) (fun H => H)) (conj (fun _ _ => conj (fun H => H) (fun H => H)) (fun _ _ => conj (fun H => H) (fun H => H)))). Qed.
+End C19_ALM_OTHERS.
+Print Assumptions C19_alm_zerofpr_stop_is_prompt.
+Print Assumptions C19_alm_pantr_stop_is_prompt.
+Print Assumptions C19_alm_fista_stop_is_prompt.
+
+(* ====================================================================== PANOC-OCP (PanocOcpLoop.v), every number system *)
+From Alpaqa Require PanocOcpLoop StopPromptOcp.
+Module C19_OCP.
+  Import PanocOcpLoop StopPromptOcp.
+  Section S.
+    Context {T : Type} `{Num T}.
+    Variables X QR DS : Type.
+    Variable fwd : list T -> T * X.
+    Variable sim : list T -> X.
+    Variable bwd : list T -> X -> list T * QR.
+    Variable cvals : X -> list T.
+    Variable gn_step : nat -> list T -> X -> QR -> list bool -> list T -> list T.
+    Variable lb_apply : DS -> list T -> T -> list nat -> bool * list T * DS.
+    Variable lb_update : DS -> list T -> list T -> list T -> list T -> bool * DS.
+    Variable lb_reset : DS -> DS.
+    Variables (N nu : nat).
+    Variables (Ulb Uub : list (option T)).
+    Variables (Dlb Dub : list (option T)).
+    Variable stop_req : counters -> bool.
+    Variable time_up : counters -> bool.
+    Variable P : params (T:=T).
+    Variables (u_in y_in μ errz_in : list T).
+    Variables (X0 : X) (ds0 : DS).
+    Variable ls_fuel : nat.
+    Notation run := (panoc_ocp X QR DS fwd sim bwd cvals gn_step lb_apply lb_update lb_reset N nu Ulb Uub Dlb Dub stop_req time_up P u_in y_in μ errz_in X0 ds0 ls_fuel).
+    Notation Polled := (ocp_polled X QR DS fwd sim bwd cvals gn_step lb_apply lb_update lb_reset N nu Ulb Uub Dlb Dub stop_req time_up P u_in y_in μ errz_in X0 ds0 ls_fuel).
+    Notation Prompt_after := (oprompt_after X cvals Dlb Dub P u_in y_in μ errz_in).
+
+    Theorem C19_ocp_prompt_after_means : forall (pp : opollpt (T:=T) X) (o : outputs (T:=T) X), Prompt_after pp o <->
+      (out_status o <> StBusy /\ exit_statuses (out_status o) /\
+       oadv (opp_cnt pp) (out_cnt o) 2 0 0 1 /\
+       out_iterations o = opp_k pp /\ out_final o = opp_curr pp /\
+       (out_u o, out_y o, out_errz o) = exit_values X cvals Dlb Dub P u_in y_in μ errz_in (out_status o) (opp_curr pp)).
+    Proof. exact (fun _ _ => conj (fun H => H) (fun H => H)). Qed.
+    Theorem C19_oadv_means : forall a b p e d cb, oadv a b p e d cb <->
+      (ocnt_le a b /\ (c_polls b <= c_polls a + p /\ c_fwd b + c_bwd b + c_sim b <= c_fwd a + c_bwd a + c_sim a + e /\
+                       c_gn b + c_lb b <= c_gn a + c_lb a + d /\ c_cb b <= c_cb a + cb)%nat).
+    Proof. exact (fun _ _ _ _ _ _ => conj (fun H => H) (fun H => H)). Qed.
+    (* one pass of the line-search loop: one poll, <= 3 oracle calls (forward + backward of the candidate, forward of û) *)
+    Theorem C19_ocp_linesearch_pass_bound : forall q τi dng (s : ls_state (T:=T) X QR DS),
+      oadv (ls_cnt s) (ls_cnt (ols_res_state X QR DS (ols_pass X QR DS fwd bwd lb_reset N nu Ulb Uub P q τi dng s))) 1 3 0 0 /\
+      c_polls (ls_cnt (ols_res_state X QR DS (ols_pass X QR DS fwd bwd lb_reset N nu Ulb Uub P q τi dng s))) = S (c_polls (ls_cnt s)).
+    Proof. exact (ols_pass_adv X QR DS fwd bwd lb_reset N nu Ulb Uub P). Qed.
+    Theorem C19_ocp_linesearch_stops_at_next_test : forall fuel q τi dng (s : ls_state (T:=T) X QR DS), stop_req (ls_cnt s) = true ->
+      ls_loop X QR DS fwd bwd lb_reset N nu Ulb Uub stop_req P (S fuel) q τi dng s = LsStopped (ols_stopped_at X QR DS s).
+    Proof. exact (ols_stops_now X QR DS fwd bwd lb_reset N nu Ulb Uub stop_req P). Qed.
+    Theorem C19_ocp_stop_is_prompt : osticky stop_req -> forall fuel o, run fuel = Done o ->
+      forall pp, Polled pp -> stop_req (opp_cnt pp) = true -> Prompt_after pp o.
+    Proof. exact (ocp_stop_prompt X QR DS fwd sim bwd cvals gn_step lb_apply lb_update lb_reset N nu Ulb Uub Dlb Dub stop_req time_up P u_in y_in μ errz_in X0 ds0 ls_fuel). Qed.
+    Theorem C19_ocp_stop_before_start : osticky stop_req -> forall fuel o, run fuel = Done o -> stop_req cnt0 = true ->
+      out_status o <> StBusy /\ exit_statuses (out_status o) /\
+      out_iterations o = 0%nat /\ c_polls (out_cnt o) = 1%nat /\ c_gn (out_cnt o) = 0%nat /\ c_lb (out_cnt o) = 0%nat /\
+      c_cb (out_cnt o) = 1%nat /\ (oevals (out_cnt o) <= 5 + s_stepsize_bt (out_stats o))%nat.
+    Proof. exact (ocp_stop_before_start X QR DS fwd sim bwd cvals gn_step lb_apply lb_update lb_reset N nu Ulb Uub Dlb Dub stop_req time_up P u_in y_in μ errz_in X0 ds0 ls_fuel). Qed.
+  End S.
+End C19_OCP.
+Print Assumptions C19_OCP.C19_ocp_linesearch_pass_bound.
+Print Assumptions C19_OCP.C19_ocp_stop_is_prompt.
+Print Assumptions C19_OCP.C19_ocp_stop_before_start.
+
+(* ====================================================================== non-vacuity and the finding, on concrete binary64 runs *)
+From Alpaqa Require Import NumF.
+(* a PANOC run (ψ = ½x², x0 = 1) whose FIRST line-search test sees a sticky request: hypotheses of C19_panoc_stop_is_prompt hold,
+   and the run returns Interrupted at the next stop check (3 polls in all, k = 0, one direction call = direction.initialize) *)
+Example C19_panoc_prompt_nonvacuous :
+  sticky ex_stop /\ ex_run 5 = Done ex_out /\
+  panoc_polled ex_pgf ex_py ex_gL ex_gp [None] [None] [] (fun _ _ => None) false ex_stop (fun _ => false) ex_P [n1] [] [] [] 5 ex_pp /\
+  ex_stop (pp_cnt ex_pp) = true /\
+  out_status ex_out = StInterrupted /\ out_iterations ex_out = 0%nat /\ c_polls (out_cnt ex_out) = 3%nat /\
+  c_dir (out_cnt ex_out) = 1%nat /\ c_apply (out_cnt ex_out) = 0%nat.
+Proof. exact (conj ex_stop_sticky (conj ex_run_done (conj ex_polled (conj ex_pp_sees ex_out_interrupted)))). Qed.
+(* and the theorem applied to it *)
+Example C19_panoc_prompt_instance : prompt_after ex_P ex_pp ex_out.
+Proof. exact (panoc_stop_prompt _ _ _ _ _ _ _ _ _ _ _ _ _ _ _ _ _ ex_stop_sticky 5 ex_out ex_run_done ex_pp ex_polled ex_pp_sees). Qed.
+
+(* FINDING: under ALM a visible request does not bound the number of further inner solves by one.  Composed model at binary64 on
+   min -x, x in [0,1], x <= 1/2, x0 = 1, y0 = 0, Σ0 = 0.01, stop() inside evaluation #0: FOUR inner solves, each start-up + one check
+   (polls = 1, direction calls = 0), statuses Converged, Converged, Converged, Interrupted; ALM returns Interrupted.
+   harness/drv_solve on the real code: the same four outer iterations, 41 user-function evaluations after the request. *)
+Example C19_alm_one_further_solve_refuted :
+  ex_alm_summary = Some (Interrupted, [(Converged, 0); (Converged, 0); (Converged, 0); (Interrupted, 0)]%nat,
+                         [(1, 0); (1, 0); (1, 0); (1, 0)]%nat).
+Proof. exact ex_alm_four_solves. Qed.
